@@ -443,27 +443,33 @@ class ConnectionConditions:
     def __call__(self, f):
         @functools.wraps(f)
         async def wrapper(cls, connection, rest, *args):
-            futures = {connection[name]: msg for name, msg in self.fields}
-            aggregate = asyncio.gather(*futures)
             if self.wait:
                 timeout = connection.wait_future_timeout
             else:
                 timeout = 0
 
-            try:
-                await asyncio.wait_for(
-                    asyncio.shield(aggregate),
-                    timeout,
-                )
-            except asyncio.TimeoutError:
-                for future, message in futures.items():
-                    if not future.done():
-                        if self.fail_info is None:
-                            info = f"bad sequence of commands ({message})"
-                        else:
-                            info = self.fail_info
-                        connection.response(self.fail_code, info)
-                        return True
+            while True:
+                futures = {connection[name]: msg for name, msg in self.fields}
+                aggregate = asyncio.gather(*futures)
+                try:
+                    await asyncio.wait_for(
+                        asyncio.shield(aggregate),
+                        timeout,
+                    )
+                except asyncio.TimeoutError:
+                    for future, message in futures.items():
+                        if not future.done():
+                            if self.fail_info is None:
+                                info = f"bad sequence of commands ({message})"
+                            else:
+                                info = self.fail_info
+                            connection.response(self.fail_code, info)
+                            return True
+                # what was waited for may be gone again: another transfer of
+                # this session, which waited for the same data connection,
+                # has taken it (then the wait begins anew)
+                if all(connection[name].done() for name, _ in self.fields):
+                    break
             return await f(cls, connection, rest, *args)
 
         return wrapper
